@@ -1,0 +1,12 @@
+//go:build verif
+
+package store
+
+import "github.com/rqlite/rqlite/v10/internal/rsync"
+
+// VerifSnapshotGate exposes the gate that serialises snapshotting, backup, the
+// startup integrity check and Close, so that a simulation harness can hold it
+// the way those operations do.
+func (s *Store) VerifSnapshotGate() *rsync.CheckAndSet {
+	return s.snapshotCAS
+}
